@@ -395,6 +395,19 @@ def run(history, config=None, audit=True):
                     v = e.as_dict()
                     v["op"] = op["op"]
                     break
+            if v is None and audit and w.stats.get("audit_unreadable"):
+                # the private layout is not what the audit expects (a refactored library): fall back to one
+                # public read per handle at the end of the run
+                for name in sorted(w.h, key=lambda s: int(s[1:])):
+                    try:
+                        got = {_pyval(kk): _pyval(x) for kk, x in w.h[name].items()}
+                    except Exception:
+                        continue
+                    w.count("fallback_end_audits")
+                    if got != w.m[name]:
+                        v = {"kind": "audit", "step": len(history) - 1, "op": "end-of-run",
+                             "detail": {"handle": name, "via": "items()"}}
+                        break
     finally:
         _ht.time = old_time
         ViewBase.empty_rows_removed = old_fast
